@@ -393,6 +393,23 @@ func Apply(o, d *Obj, c Call) (ret []string) {
 		} else {
 			ret = []string{"nil"}
 		}
+	case "Marshal":
+		in := []any{c.Str("kind")}
+		for _, v := range c.Strs("xs") {
+			in = append(in, Conc(v))
+		}
+		// alternate between the two documented call forms
+		var err error
+		if len(in)%2 == 0 {
+			err = o.S.Marshal(in...)
+		} else {
+			err = o.S.Marshal(in)
+		}
+		if err != nil {
+			ret = []string{"err"}
+		} else {
+			ret = []string{"nil"}
+		}
 	case "SetID":
 		o.S.SetID(c.Str("v"))
 	case "SetCategory":
